@@ -1,4 +1,5 @@
 import PyxModel.Meta
+import PyxModel.OSet
 
 /-
   Queries and navigation of xtuml/meta.py over the L2 state (C09):
@@ -23,10 +24,8 @@ namespace Pyx
 namespace Query
 open Pyx.Meta
 
-/-- first-occurrence de-duplication (`QuerySet(iterable)`) -/
-def dedupFirst : List Nat → List Nat
-  | [] => []
-  | x :: xs => x :: (dedupFirst xs).filter (fun y => y != x)
+/-- first-occurrence de-duplication (`QuerySet(iterable)`), shared with the ordered-set model -/
+abbrev dedupFirst : List Nat → List Nat := Pyx.OSet.dedupFirst
 
 /-- stable insertion: `x` goes before the first element `y` with `lt x y` -/
 def insertBefore {α : Type} (lt : α → α → Bool) (x : α) : List α → List α
@@ -143,11 +142,15 @@ structure Step where
   phrase : String
   deriving Repr
 
+/-- accumulate one element's partners; `none` once any element raises UnknownLink -/
+def navAcc (sch : Schema) (s : State) (st : Step) (acc : Option (List Inst)) (x : Inst) : Option (List Inst) :=
+  match acc, navigate sch s x st.toKind st.rel st.phrase with
+  | some a, some r => some (a ++ r)
+  | _, _ => none
+
 /-- one `nav` step over a sequence (duplicates kept); `none` if any element raises UnknownLink -/
 def navStep (sch : Schema) (s : State) (l : List Inst) (st : Step) : Option (List Inst) :=
-  l.foldl (fun acc x => match acc, navigate sch s x st.toKind st.rel st.phrase with
-    | some a, some r => some (a ++ r)
-    | _, _ => none) (some [])
+  l.foldl (navAcc sch s st) (some [])
 
 def navSeq (sch : Schema) (s : State) (h : List Inst) (steps : List Step) : Option (List Inst) :=
   steps.foldl (fun acc st => match acc with | some l => navStep sch s l st | none => none) (some h)
@@ -162,14 +165,23 @@ def navOne (sch : Schema) (val : Valuation) (s : State) (h : List Inst) (steps :
     Option (Option Inst) :=
   (navSeq sch s h steps).map (fun l => (applyOps val l ops).head?)
 
-/-- `navigate_subtype(supertype, rel)` -/
-def navSubtype (sch : Schema) (s : State) (x : Inst) (rel : String) : Option Inst :=
-  (linkDict sch (s.kindOf x)).findSome? (fun e =>
+/-- `navigate_subtype(supertype, rel)`: the link keys of the class are tried in dict order; the
+    first one with the rel id whose navigation (phrase '') yields an instance wins;
+    outer `none` = the UnknownLinkException raised by that navigation escapes -/
+def navSubtypeFrom (sch : Schema) (s : State) (x : Inst) (rel : String) : List LinkEntry → Option (Option Inst)
+  | [] => some none
+  | e :: rest =>
     if e.rel == rel then
       match navigate sch s x e.toKind rel "" with
-      | some l => l.head?
       | none => none
-    else none)
+      | some l =>
+        match l.head? with
+        | some y => some (some y)
+        | none => navSubtypeFrom sch s x rel rest
+    else navSubtypeFrom sch s x rel rest
+
+def navSubtype (sch : Schema) (s : State) (x : Inst) (rel : String) : Option (Option Inst) :=
+  navSubtypeFrom sch s x rel (linkDict sch (s.kindOf x))
 
 end Query
 end Pyx
